@@ -24,7 +24,7 @@ class C03(CheckDef):
     monitors = [('LeftRightMon.tla', 'LeftRightMon.cfg'), ('HB.tla', 'HB.cfg')]
     programs = {
         'quick': [('0;0/%s;%s/%s;%s' % ((R,) * 4), {}, 1500, 'random'), ('0;0/0;0/%s;%s/%s' % ((R,) * 3), {}, 1500, 'random'),
-                  ('0;0;0/0;0/2;2;2', {}, 1000, 'pct'), ('0/0/0/%s;%s' % (R, R), {}, 800, 'random'),
+                  ('0;0;0/0;0/2;2;2', {}, 1000, 'pct'), ('0/0/0/%s;%s' % (R, R), {}, 800, 'random'), ('0/2/1', {}, 3000, 'pb1'), ('0/0/2', {}, 3000, 'pb1'),
                   ('0;0/%s;%s/%s' % (R, R, R), {'maxthrows': 1}, 700, 'random')],   # a functor throwing in its first or its second invocation
         'thorough': [('0;0/%s;%s/%s;%s' % ((R,) * 4), {}, 25000, 'random'), ('0;0/0;0/%s;%s/%s' % ((R,) * 3), {}, 25000, 'random'),
                      ('0;0;0/0;0/2;2;2', {}, 20000, 'pct'), ('0/0/0/%s;%s' % (R, R), {}, 15000, 'random'),
